@@ -61,6 +61,46 @@ def tx_payload(parent, label):
             return None
         v = u[o1[0]][0] + u[o0[0]][0] + u[o1[1]][0]
         return [world.mk_tx([(oref(o1[0]), K[1]), (oref(o0[0]), K[0]), (oref(o1[1]), K[1])], [(v - 9, K[2])])], K[5], dt + 8
+    if name == 'q':       # K0's largest output -> TWO outputs of the same amount to the same key (K1) + change
+        o0 = owned(u, K[0])
+        if not o0 or u[o0[0]][0] < 4 * COIN:
+            return None
+        v = u[o0[0]][0]
+        return [world.mk_tx([(oref(o0[0]), K[0])], [(COIN, K[1]), (COIN, K[1]), (v - 2 * COIN - 11, K[0])])], K[4], dt + 10
+    if name == 'r':       # K1 spends the LATER of two outputs of one transaction that pay it the same amount
+        o1 = owned(u, K[1])
+        twins = [r for r in o1 if any(r2 != r and r2[0] == r[0] and r2[1] < r[1] and u[r2] == u[r] for r2 in o1)]
+        if not twins:
+            return None
+        r = sorted(twins)[0]
+        return [world.mk_tx([(oref(r), K[1])], [(u[r][0] - 2, K[2])])], K[5], dt + 11
+    if name == 'w':       # empty block whose reward has two outputs of the same amount to the same key
+        half = refmodel.subsidy(parent.height + 1) // 2
+        return [], K[5], dt + 12, {'cb_data': b'w', 'cb_outs': [(half, K[1]), (half, K[1])]}
+    if name == 'F':       # fan-out: K0's largest output -> 66 outputs of distinct small values to K1 + change
+        o0 = owned(u, K[0])
+        if not o0 or u[o0[0]][0] < 200000:
+            return None
+        v = u[o0[0]][0]
+        outs = [(1000 + i, K[1]) for i in range(66)]
+        return [world.mk_tx([(oref(o0[0]), K[0])], outs + [(v - sum(o[0] for o in outs) - 13, K[0])])], K[4], dt + 13
+    if name == 'm':       # 63 transactions in one block (the transaction count needs two octets): each spends one small K1 output
+        small = sorted(r for r in owned(u, K[1]) if 1000 <= u[r][0] < 1100)
+        if len(small) < 63:
+            return None
+        return [world.mk_tx([(oref(r), K[1])], [(u[r][0] - 1, K[2])]) for r in small[:63]], K[5], dt + 14
+    if name == 'O':       # wide fan-out: K0's largest output -> 1,200 outputs to K1 + change (1,201 output rows in one block)
+        o0 = owned(u, K[0])
+        if not o0 or u[o0[0]][0] < 5000000:
+            return None
+        v = u[o0[0]][0]
+        outs = [(2000 + i, K[1]) for i in range(1200)]
+        return [world.mk_tx([(oref(o0[0]), K[0])], outs + [(v - sum(o[0] for o in outs) - 17, K[0])])], K[4], dt + 15
+    if name == 'P':       # K1 spends two late outputs of the wide fan-out
+        late = sorted(r for r in owned(u, K[1]) if 2000 <= u[r][0] < 3200 and r[1] in (600, 1199))
+        if len(late) < 2:
+            return None
+        return [world.mk_tx([(oref(r), K[1]) for r in late], [(sum(u[r][0] for r in late) - 5, K[2])])], K[5], dt + 16
     if name == 'f':       # funding: empty block mined by K0
         return [], K[0], dt
     if name == 's':       # split
